@@ -405,7 +405,7 @@ void generate_math_utility_builtins(StringBuilder *sb) {
     sb_append(sb, "    int64_t str_len = strnlen(str, 1024*1024);\n");
     sb_append(sb, "    if (start < 0 || start > str_len || length < 0) return \"\";\n");
     sb_append(sb, "    if (start == str_len) return \"\";\n");
-    sb_append(sb, "    if (start + length > str_len) length = str_len - start;\n");
+    sb_append(sb, "    if (length > str_len - start) length = str_len - start;\n");
     sb_append(sb, "    char* result = gc_alloc_string(length);\n");
     sb_append(sb, "    if (!result) return \"\";\n");
     sb_append(sb, "    strncpy(result, str + start, length);\n");
